@@ -32,11 +32,25 @@ class GroupFaults:
         codes = {8: (14, 15, 16, 25, 22, 27), 9: (14, 16), 10: (15,), 11: (14, 15, 16, 25), 12: (15, 16, 25, 22, 27),
                  14: (15, 16, 25, 22, 27)}[req.API_KEY]
         menu = ["none"] + [("error", c) for c in codes] + ["drop_before", "timeout_before"]
+        if req.API_KEY in (11, 12, 14):
+            menu.append("wipe_state")  # coordinator failed over without the group's state
         f = menu[self.src.choice(f"gfault{self.seen}", len(menu))]
         if f == "none":
             return None
         self.used += 1
         self.log.append((round(asyncio.get_event_loop().time(), 3), self.seen, GROUP_APIS.get(req.API_KEY), f, entry["client"]))
+        if f == "wipe_state":
+            g = cluster.group(req.group)
+            for m in g.members.values():
+                for k in ("join_fut", "sync_fut"):
+                    if m.get(k) is not None and not m[k].done():
+                        m[k].set_result((16, -1, "", "", "", []) if k == "join_fut" else (16, b""))
+            g.members.clear()
+            g.pending_ids.clear()
+            g.state = "Empty"
+            g.leader = None
+            cluster.group_events.append((asyncio.get_event_loop().time(), g.gid, "state_lost"))
+            return None  # the request itself is then handled by the empty coordinator
         return f
 
 
@@ -54,18 +68,32 @@ def standard_scenario(src, cfg, nmembers, event_times, quiet=3.0, fault_apis=(),
     plan = {}
     plan["join_B"] = event_times[src.choice("join_B_at", len(event_times))] if nmembers >= 2 else None
     plan["join_C"] = event_times[src.choice("join_C_at", len(event_times))] if nmembers >= 3 else None
-    ev = ["none", "stop", "crash"][src.choice("event", 3)]
+    evs = ["none", "stop", "crash"] + list(cfg.get("extra_events", ()))
+    ev = evs[src.choice("event", len(evs))]
     plan["event"] = ev
     if ev != "none":
-        plan["victim"] = ["A", "B", "C"][src.choice("victim", nmembers)]
+        plan["victim"] = ["A", "B", "C"][src.choice("victim", nmembers)] if ev in ("stop", "crash") else "A"
         plan["event_at"] = event_times[src.choice("event_at", len(event_times))] + 0.02
     plan["listener_delay"] = [0.0, 0.15][src.choice("listener_delay", 2)]
+    # slow SyncGroup replies (a metadata refresh or another event can land while it is in flight)
+    plan["sync_delay"] = [0.0, 0.25][src.choice("sync_delay", 2)] if cfg.get("vary_sync_delay") else 0.0
+    # partition t-1 without a leader until an election finishes (its position lookup starts later)
+    plan["leaderless_until"] = [None, 0.36, 0.5][src.choice("leaderless_until", 3)] if cfg.get("vary_leaderless") else None
     faults = GroupFaults(src, set(fault_apis), max_fault_requests, max_faults)
     plan["faults"] = faults
 
     async def scenario(run, loop):
         run.cluster.fault_fn = faults
         run.plan = plan
+        run.cluster.sync_delay = plan["sync_delay"]
+        if plan["leaderless_until"] is not None:
+            tp1 = ("t", 1)
+            real = run.cluster.leader[tp1]
+            run.cluster.leader[tp1] = -1
+
+            def elect():
+                run.cluster.leader[tp1] = real
+            loop.call_later(plan["leaderless_until"], elect)
         names = ["A", "B", "C"][:nmembers]
         ms = {n: run.member(n, listener_delay=plan["listener_delay"]) for n in names}
         writer_on = [True]
@@ -104,6 +132,13 @@ def standard_scenario(src, cfg, nmembers, event_times, quiet=3.0, fault_apis=(),
             elif what == "crash":
                 if m.consumer is not None and m.alive:
                     m.crash()
+            elif what == "grow":
+                # the topic gets one more partition (clients notice at their next metadata refresh)
+                n = run.cluster.topics["t"]
+                run.cluster.topics["t"] = n + 1
+                run.cluster.logs[("t", n)] = simkafka.PartitionLog(run.cluster, "t", n)
+                run.cluster.leader[("t", n)] = run.cluster.nodes[n % len(run.cluster.nodes)]
+                append_record(run.cluster, ("t", n))
         await asyncio.sleep(max(0.0, t0 + max(t for t, _, _ in timeline) + 0.3 - loop.time()))
         writer_on[0] = False
         run.quiet_from = loop.time()
